@@ -39,7 +39,15 @@ def init_sobol(u0=np.ndarray, lb=np.ndarray, ub=np.ndarray, plb=np.ndarray, pub=
         str_seed = u0[0 : np.minimum(11, len(u0))].astype(np.uint64)
         # (the string must not depend on the process-wide NumPy print options)
         with np.printoptions(
-            threshold=1000, edgeitems=3, linewidth=75, formatter=None, legacy=False
+            threshold=1000,
+            edgeitems=3,
+            linewidth=75,
+            formatter=None,
+            legacy=False,
+            sign="-",
+            precision=8,
+            suppress=False,
+            floatmode="maxprec",
         ):
             if str_seed.ndim == 1:
                 str_seed = np.array2string(str_seed)[1:-1]
